@@ -983,6 +983,17 @@ def glue_greenback() -> None:
         if gr_frame is not None:  # pragma: no branch
             # Yep; switch to walking the greenlet stack, since orig_coro
             # will look "running" but it's not on any thread's stack.
+            resume_greenlet = frame.pyframe.f_locals.get("resume_greenlet")
+            if (
+                resume_greenlet is not None
+                and resume_greenlet is not child_greenlet
+                and getattr(resume_greenlet, "gr_frame", None) is not None
+            ):
+                # The await_() was made from another greenlet nested inside
+                # the child (greenback tracks it separately, for interop with
+                # other greenlet-based systems): the child is suspended where
+                # it switched into that one, and the stack goes on there.
+                return (child_greenlet, resume_greenlet)
             return child_greenlet
         elif orig_coro is not None:  # pragma: no cover
             # No greenlet, so child is suspended at a regular await.
